@@ -328,6 +328,16 @@ class AstInfo:
                 )
                 if child_lineno not in self.module.no_cover_lines
             )
+            # A function or class that contains this scope is in `only_cover_lines`.
+            or any(
+                scope_line_range(definition_node)[0] in self.module.only_cover_lines
+                for definition_node in nodes_of_class(
+                    self.module.module_ast, (ast.FunctionDef, ast.AsyncFunctionDef, ast.ClassDef)
+                )
+                if scope_line_range(definition_node)[0]
+                <= scope_line_range(self.ast)[0]
+                <= scope_line_range(definition_node)[1]
+            )
         )
 
     @staticmethod
